@@ -110,6 +110,7 @@ func shmBase() string {
 // New creates the world directory and all files of the scenario. It must be
 // called inside the bubble, before any repository code runs.
 func New(sc *Scenario, k *kernel.Kernel) (*World, error) {
+	kernel.ResetWindows()
 	dirCounter++
 	dir := filepath.Join(shmBase(), fmt.Sprintf("verif-%d-%d", os.Getpid(), dirCounter))
 	if d := os.Getenv("VERIF_WORLD_DIR"); d != "" {
@@ -914,6 +915,7 @@ func (w *World) Yield(site string, id string) {
 		// a seam only for families that explore concurrent evaluations of one curve graph
 		return
 	}
+	kernel.NoteYield(site)
 	ev := kernel.NewEvent("yield", site, id, 2)
 	if w.Sampler != nil && !w.RaceMode {
 		ev.Sample = w.Sampler(site, id)
